@@ -111,7 +111,21 @@ def bits_of(text, dtype=None):
     import numpy
     if dtype == "list":
         return [int(c) for c in text]
+    if dtype in ("strided", "readonly"):
+        return pooled(flat_variant(numpy.array([int(c) for c in text], dtype=int), dtype), "bits")
     return pooled(numpy.array([int(c) for c in text], dtype=dtype or int), "bits")
+
+
+def flat_variant(array, variant):
+    """A 1-D array (message, mask) as every second element of a wider buffer, or frozen (read-only)."""
+    import numpy
+    if variant == "strided":
+        big = numpy.full(2 * len(array) + 1, 7, dtype=array.dtype)
+        big[1::2] = array
+        return big[1::2]
+    frozen = numpy.array(array, copy=True)
+    frozen.setflags(write=False)
+    return frozen
 
 
 def rows_of_accessor(acc, k):
